@@ -92,10 +92,15 @@ Proof.
     rewrite !wf_EGen, G1, G2, !andb_true_iff. intros [[[H1 H2] H3] H4]. auto.
   - destruct (IH e1) as [G1 [S1 W1]], (IH e2) as [G2 [S2 W2]]. cbn [rw_set_literal]. split; [reflexivity|]. split; [reflexivity|].
     rewrite !wf_EFloorDiv, G1, G2, S2, !andb_true_iff. intros [[[[H1 H2] H3] H4] H5]. repeat split; auto.
-  - cbn [rw_set_literal]. split; [reflexivity|]. split; [reflexivity|]. discriminate.
+  - cbn [rw_set_literal]. split; [reflexivity|]. split; [reflexivity|].
+    (* only an implicit concatenation of string literals is well-formed, and the rewrite leaves a literal alone *)
+    intros Hw.
+    match type of Hw with
+    | wf (EJuxt _ ?a) = true => destruct a as [|c| | | | | | | | | | | | |]; try discriminate Hw; destruct c; try discriminate Hw; exact Hw
+    end.
 Qed.
 Theorem rw_set_literal_wf e : wf e = true -> wf (rw_set_literal e) = true.
-Proof. apply rw_set_literal_good. Qed.
+Proof. intros H. destruct (rw_set_literal_good e) as [_ [_ W]]. exact (W H). Qed.
 
 (** * The kernels as transformers of the orchestration model: trees are MiniPy expressions, [code] is the printer *)
 Definition kernel_code (k : pipe_kind) (e : expr) : bytes := pp e.
